@@ -613,7 +613,7 @@ func runTopology(c *Ctx, ti int, r *mon.RNG) {
 		li := leaf.subject[len(leaf.subject)-1:]
 		hsel := 1
 		if dim == 2 || r.Intn(8) == 0 {
-			hsel = r.Intn(12)
+			hsel = r.Intn(15)
 		}
 		switch hsel {
 		case 0:
@@ -637,6 +637,12 @@ func runTopology(c *Ctx, ti int, r *mon.RNG) {
 			host, hcls = "www.example.com", "partial-wildcard-candidate"
 		case 10:
 			host, hcls = "example.com", "parent-domain"
+		case 12:
+			host, hcls = "[leaf"+li+".example.com]", "bracketed-dns-name" // brackets are for IP literals only
+		case 13:
+			host, hcls = "[LEAF"+li+".Example.com.]", "bracketed-dns-name-case-dot"
+		case 14:
+			host, hcls = "[anything.example.com]", "bracketed-wildcard-candidate"
 		default:
 			host, hcls = "alt.example.net", "second-san"
 		}
